@@ -422,52 +422,133 @@ fn same_class(o: &Option<Outcome>, prop: &str, kind: &str) -> bool {
     }
 }
 
-/// Delta-debug the step list, then simplify steps, keeping the same violation class.
-pub fn minimise(plan: &Plan, prop: &str, kind: &str) -> (Plan, usize) {
-    let t0 = Instant::now();
-    let mut budget = 400usize;
-    let mut best = plan.clone();
-    let mut try_plan = |cand: &Plan, budget: &mut usize| -> bool {
-        if *budget == 0 || t0.elapsed().as_secs() > 90 {
-            return false;
+/// Evaluate candidates in parallel (each in its own process); returns which ones keep the violation class.
+fn eval_parallel(cands: &[Plan], prop: &str, kind: &str, execs: &mut usize) -> Vec<bool> {
+    let mut out = vec![false; cands.len()];
+    for (ci, chunk) in cands.chunks(16).enumerate() {
+        let res: Vec<bool> = std::thread::scope(|sc| {
+            let hs: Vec<_> = chunk.iter().map(|c| sc.spawn(move || same_class(&exec_plan_subprocess(c), prop, kind))).collect();
+            hs.into_iter().map(|h| h.join().unwrap_or(false)).collect()
+        });
+        *execs += chunk.len();
+        for (i, r) in res.into_iter().enumerate() {
+            out[ci * 16 + i] = r;
         }
-        *budget -= 1;
-        same_class(&exec_plan_subprocess(cand), prop, kind)
-    };
-    // 1. chunks, then single steps
-    let mut chunk = (best.steps.len() / 2).max(1);
-    while chunk >= 1 {
-        let mut i = 0;
-        let mut removed_any = false;
-        while i < best.steps.len() {
-            let mut cand = best.clone();
-            let hi = (i + chunk).min(cand.steps.len());
-            cand.steps.drain(i..hi);
-            if !cand.steps.is_empty() && try_plan(&cand, &mut budget) {
-                best = cand;
-                removed_any = true;
-            } else {
-                i += chunk;
-            }
+    }
+    out
+}
+
+fn remove_ranges(plan: &Plan, ranges: &[(usize, usize)]) -> Plan {
+    let mut p = plan.clone();
+    let mut keep = vec![true; p.steps.len()];
+    for (a, b) in ranges {
+        for k in keep.iter_mut().take(*b).skip(*a) {
+            *k = false;
         }
-        if chunk == 1 && !removed_any {
-            break;
-        }
-        if chunk == 1 {
+    }
+    let mut it = keep.iter();
+    p.steps.retain(|_| *it.next().unwrap());
+    p
+}
+
+/// Apply as many of the individually successful removals as compose.
+fn apply_removals(best: &mut Plan, ranges: Vec<(usize, usize)>, prop: &str, kind: &str, execs: &mut usize) -> bool {
+    if ranges.is_empty() {
+        return false;
+    }
+    let all = remove_ranges(best, &ranges);
+    *execs += 1;
+    if !all.steps.is_empty() && same_class(&exec_plan_subprocess(&all), prop, kind) {
+        *best = all;
+        return true;
+    }
+    // they do not compose: take them one by one, from the back so that indexes stay valid
+    let mut any = false;
+    for (a, b) in ranges.into_iter().rev() {
+        if b > best.steps.len() {
             continue;
         }
-        chunk /= 2;
+        let cand = remove_ranges(best, &[(a, b)]);
+        *execs += 1;
+        if !cand.steps.is_empty() && same_class(&exec_plan_subprocess(&cand), prop, kind) {
+            *best = cand;
+            any = true;
+        }
     }
-    // 2. per-step simplification
-    let mut cand = best.clone();
-    cand.cfg.pool = 1;
-    if cand != best && try_plan(&cand, &mut budget) {
-        best = cand;
+    any
+}
+
+/// Minimise a failing plan keeping the same violation class: whole transactions first, then whole
+/// indexes, then delta debugging over the steps (candidates evaluated 16 at a time, each in its own
+/// process), then per-step simplification. Bounded by ~1500 executions / 120 s.
+pub fn minimise(plan: &Plan, prop: &str, kind: &str) -> (Plan, usize) {
+    let t0 = Instant::now();
+    let mut execs = 0usize;
+    let mut best = plan.clone();
+    let over = |execs: usize| execs > 1200 || t0.elapsed().as_secs() > 45;
+    // 0. everything after the failing step is irrelevant
+    // 1. whole transaction blocks
+    loop {
+        let mut blocks = Vec::new();
+        let mut start = 0;
+        for (i, st) in best.steps.iter().enumerate() {
+            if matches!(st, Step::Commit | Step::Abort | Step::Restart) {
+                blocks.push((start, i + 1));
+                start = i + 1;
+            }
+        }
+        if start < best.steps.len() {
+            blocks.push((start, best.steps.len()));
+        }
+        if blocks.len() < 2 || over(execs) {
+            break;
+        }
+        let cands: Vec<Plan> = blocks.iter().map(|b| remove_ranges(&best, &[*b])).collect();
+        let ok = eval_parallel(&cands, prop, kind, &mut execs);
+        let good: Vec<(usize, usize)> = blocks.iter().zip(&ok).filter(|(_, o)| **o).map(|(b, _)| *b).collect();
+        if !apply_removals(&mut best, good, prop, kind, &mut execs) {
+            break;
+        }
     }
-    for i in 0..best.steps.len() {
+    // 2. all steps of one index slot
+    for ix in 0..best.cfg.indexes.len() {
+        if over(execs) {
+            break;
+        }
         let mut cand = best.clone();
-        let changed = match &mut cand.steps[i] {
-            Step::Build { n_trees, mem, fault, .. } => {
+        cand.steps.retain(|s| step_ix(s) != Some(ix));
+        if cand.steps.len() < best.steps.len() && !cand.steps.is_empty() {
+            execs += 1;
+            if same_class(&exec_plan_subprocess(&cand), prop, kind) {
+                best = cand;
+            }
+        }
+    }
+    // 3. delta debugging over the remaining steps
+    let mut chunk = (best.steps.len() / 2).max(1);
+    loop {
+        if over(execs) {
+            break;
+        }
+        let n = best.steps.len();
+        let ranges: Vec<(usize, usize)> = (0..n).step_by(chunk).map(|a| (a, (a + chunk).min(n))).collect();
+        let cands: Vec<Plan> = ranges.iter().map(|r| remove_ranges(&best, &[*r])).collect();
+        let ok = eval_parallel(&cands, prop, kind, &mut execs);
+        let good: Vec<(usize, usize)> = ranges.iter().zip(&ok).zip(&cands).filter(|((_, o), c)| **o && !c.steps.is_empty()).map(|((r, _), _)| *r).collect();
+        let progressed = apply_removals(&mut best, good, prop, kind, &mut execs);
+        if chunk == 1 && !progressed {
+            break;
+        }
+        if !progressed || chunk > best.steps.len() {
+            chunk = (chunk / 2).max(1);
+        }
+    }
+    // 4. per-step simplification: single edits evaluated in parallel against the same base, then composed
+    let mut edits: Vec<(usize, Step)> = Vec::new();
+    for i in 0..best.steps.len() {
+        let mut st = best.steps[i].clone();
+        let changed = match &mut st {
+            Step::Build { n_trees, mem, .. } => {
                 let mut c = false;
                 if mem.is_some() {
                     *mem = None;
@@ -477,7 +558,6 @@ pub fn minimise(plan: &Plan, prop: &str, kind: &str) -> (Plan, usize) {
                     *n_trees = Some(2);
                     c = true;
                 }
-                let _ = fault;
                 c
             }
             Step::Add { v, .. } | Step::Append { v, .. } => match v {
@@ -489,11 +569,63 @@ pub fn minimise(plan: &Plan, prop: &str, kind: &str) -> (Plan, usize) {
             },
             _ => false,
         };
-        if changed && try_plan(&cand, &mut budget) {
-            best = cand;
+        if changed {
+            edits.push((i, st));
         }
     }
-    (best, 400 - budget)
+    if !over(execs) && edits.len() <= 300 {
+        let mut cands: Vec<Plan> = edits
+            .iter()
+            .map(|(i, st)| {
+                let mut c = best.clone();
+                c.steps[*i] = st.clone();
+                c
+            })
+            .collect();
+        let mut cfg_cand = best.clone();
+        cfg_cand.cfg.pool = 1;
+        cfg_cand.cfg.reuse_writer = false;
+        let has_cfg = cfg_cand.cfg != best.cfg;
+        if has_cfg {
+            cands.push(cfg_cand.clone());
+        }
+        let ok = eval_parallel(&cands, prop, kind, &mut execs);
+        let mut composed = best.clone();
+        for ((i, st), good) in edits.iter().zip(&ok) {
+            if *good {
+                composed.steps[*i] = st.clone();
+            }
+        }
+        if has_cfg && *ok.last().unwrap() {
+            composed.cfg = cfg_cand.cfg.clone();
+        }
+        if composed != best {
+            execs += 1;
+            if same_class(&exec_plan_subprocess(&composed), prop, kind) {
+                best = composed;
+            } else {
+                for ((i, st), good) in edits.iter().zip(&ok) {
+                    if !*good || over(execs) {
+                        continue;
+                    }
+                    let mut c = best.clone();
+                    c.steps[*i] = st.clone();
+                    execs += 1;
+                    if same_class(&exec_plan_subprocess(&c), prop, kind) {
+                        best = c;
+                    }
+                }
+            }
+        }
+    }
+    (best, execs)
+}
+
+fn step_ix(s: &Step) -> Option<usize> {
+    match s {
+        Step::Add { ix, .. } | Step::Append { ix, .. } | Step::Del { ix, .. } | Step::Clear { ix } | Step::Build { ix, .. } | Step::ChangeMetric { ix, .. } | Step::BadAdd { ix, .. } | Step::BadQuery { ix, .. } => Some(*ix),
+        _ => None,
+    }
 }
 
 // ------------------------------------------------------------------ known findings
